@@ -121,6 +121,7 @@ type Sim struct {
 	fairMode     bool
 	maxTasksLive int
 	data         any
+	spins        int // number of SpinHint calls (failed try-locks, Gosched) so far
 	optBuf       []*Task
 	stepHooks    []func()
 	inHook       int
@@ -642,7 +643,17 @@ func Block(on string, enabled func() bool) {
 func SpinHint() {
 	if s := S; s != nil && s.cur != nil {
 		s.cur.spin = true
+		s.spins++
 	}
+}
+
+// Spins returns how many failed non-blocking attempts (TryLock/TryRLock failures, Gosched calls) have
+// been made so far in this run (reach probes only).
+func Spins() int {
+	if s := S; s != nil {
+		return s.spins
+	}
+	return 0
 }
 
 // Go starts fn as a new task. lib marks goroutines started by instrumented library code.
